@@ -257,6 +257,239 @@ Section LatchProofs.
   Qed.
 End LatchProofs.
 
+(* ---- every history, with the ingester call made for each output ---------------------------- *)
+Section LatchHistories.
+  Variable S : Type.
+  Variable ing_step : S -> S * (option N * option N * option errv).
+  Variable ing_cont : S -> errv -> bool.
+
+  Notation read := (read S ing_step ing_cont).
+  Notation do_read := (do_read S ing_step ing_cont).
+  Notation step := (step S ing_step ing_cont).
+  Notation run := (run S ing_step ing_cont).
+  Notation runx := (runx S ing_step ing_cont).
+  Notation consulted := (consulted S ing_step).
+
+  Lemma read_consults st :
+    read st = if consults (fst st) then do_read (snd st)
+              else (st, OutRead None (lastErr (fst st))).
+  Proof.
+    destruct st as [ts s]. rewrite read_unfold. unfold consults. cbn [fst snd].
+    destruct (lastErr ts) as [e|]; [destruct (is_failed e)|]; reflexivity.
+  Qed.
+
+  (* [consulted] is where the ingester state moves: an operation that consults nothing leaves the
+     ingester as it was, one that consults leaves it as that call left it. *)
+  Lemma consulted_spec st o :
+    match consulted st o with
+    | None => snd (fst (step st o)) = snd st
+    | Some (s1, _) => snd (fst (step st o)) = s1
+    end.
+  Proof.
+    destruct o; cbn [Latch.consulted Latch.step]; [|reflexivity].
+    rewrite read_consults. destruct (consults (fst st)); [|reflexivity].
+    unfold Latch.do_read. destruct (ing_step (snd st)) as [s1 [[raw b] [e|]]]; reflexivity.
+  Qed.
+
+  Lemma runx_run ops : forall st,
+    fst (runx st ops) = fst (run st ops) /\ map fst (snd (runx st ops)) = snd (run st ops).
+  Proof.
+    induction ops as [|o ops IH]; intro st; [split; reflexivity|].
+    cbn [Latch.runx Latch.run]. destruct (step st o) as [st1 x]. specialize (IH st1).
+    destruct (runx st1 ops) as [st2 xs]. destruct (run st1 ops) as [st2' xs'].
+    cbn [fst snd map] in *. destruct IH as [-> ->]. split; reflexivity.
+  Qed.
+
+  Lemma runx_app st ops1 ops2 :
+    runx st (ops1 ++ ops2) =
+    let '(st1, o1) := runx st ops1 in let '(st2, o2) := runx st1 ops2 in (st2, o1 ++ o2).
+  Proof.
+    revert st; induction ops1 as [|o ops1 IH]; intro st; cbn [app Latch.runx].
+    - destruct (runx st ops2); reflexivity.
+    - destruct (step st o) as [st1 x]. rewrite IH.
+      destruct (runx st1 ops1) as [st2 o1]. destruct (runx st2 ops2) as [st3 o2]. reflexivity.
+  Qed.
+
+  (* a property of every (output, ingester call) pair of every history follows from one step *)
+  Lemma runx_Forall (P : out * option (S * ingr) -> Prop) :
+    (forall st o, P (snd (step st o), consulted st o)) ->
+    forall ops st, Forall P (snd (runx st ops)).
+  Proof.
+    intros H ops. induction ops as [|o ops IH]; intro st; [constructor|].
+    cbn [Latch.runx]. specialize (H st o). destruct (step st o) as [st1 x]. specialize (IH st1).
+    destruct (runx st1 ops) as [st2 xs]. constructor; assumption.
+  Qed.
+
+  (* What one call returns, by the ingester call made for it. *)
+  Lemma step_by_consulted st o :
+    match o, consulted st o with
+    | OpRaw, _ => snd (step st o) = OutRaw (rawrecord (fst st))
+    | OpRead, None => exists e, lastErr (fst st) = Some e /\ is_failed e = false /\
+                                step st o = (st, OutRead None (Some e))
+    | OpRead, Some (s1, (raw, b, None)) => step st o = ((mkT None raw, s1), OutRead b None)
+    | OpRead, Some (s1, (raw, b, Some e0)) =>
+        let e := if ing_cont s1 e0 then wrap_failed e0 else e0 in
+        step st o = ((mkT (Some e) None, s1), OutRead None (Some e))
+    end.
+  Proof.
+    destruct o; [|reflexivity]. cbn [Latch.consulted Latch.step]. rewrite read_consults.
+    unfold consults. destruct (lastErr (fst st)) as [e|] eqn:He.
+    - destruct (is_failed e) eqn:Hf.
+      + unfold Latch.do_read. destruct (ing_step (snd st)) as [s1 [[raw b] [e0|]]]; reflexivity.
+      + exists e. repeat split; auto.
+    - unfold Latch.do_read. destruct (ing_step (snd st)) as [s1 [[raw b] [e0|]]]; reflexivity.
+  Qed.
+
+  (* Non-nil bytes come out of a Read exactly when the ingester was called for it and reported
+     success with those bytes. *)
+  Theorem bytes_only_on_success st ops :
+    Forall (fun p => forall b,
+              (exists e, fst p = OutRead (Some b) e) <->
+              (exists s1 raw, snd p = Some (s1, (raw, Some b, None))))
+           (snd (runx st ops)).
+  Proof.
+    apply runx_Forall. clear st ops. intros st o b. cbn [fst snd].
+    pose proof (step_by_consulted st o) as H. destruct o.
+    - destruct (consulted st OpRead) as [[s1 [[raw b1] [e0|]]]|].
+      + cbn zeta in H. rewrite H. cbn [snd]. split.
+        * intros [e He]. discriminate.
+        * intros (s2 & raw2 & Hc). discriminate.
+      + rewrite H. cbn [snd]. split.
+        * intros [e He]. inversion He; subst. eauto.
+        * intros (s2 & raw2 & Hc). inversion Hc; subst. eauto.
+      + destruct H as (e & _ & _ & H). rewrite H. cbn [snd]. split.
+        * intros [e1 He]. discriminate.
+        * intros (s2 & raw2 & Hc). discriminate.
+    - cbn [Latch.consulted]. rewrite H. split.
+      + intros [e He]. discriminate.
+      + intros (s2 & raw2 & Hc). discriminate.
+  Qed.
+
+  (* A per-record failure always stems from an ingester error of that very call and carries its
+     message: either the ingester's continuable error wrapped into ErrTransformFailed, or an
+     ErrTransformFailed the ingester returned itself. *)
+  Theorem failed_wraps_ingester_error st ops :
+    Forall (fun p => forall e, fst p = OutRead None (Some e) -> is_failed e = true ->
+              exists s1 raw b e0, snd p = Some (s1, (raw, b, Some e0)) /\ e_msg e = e_msg e0 /\
+                ((ing_cont s1 e0 = true /\ e = wrap_failed e0) \/
+                 (ing_cont s1 e0 = false /\ e = e0)))
+           (snd (runx st ops)).
+  Proof.
+    apply runx_Forall. clear st ops. intros st o e. cbn [fst snd]. intros Ho Hf.
+    pose proof (step_by_consulted st o) as H. destruct o.
+    - destruct (consulted st OpRead) as [[s1 [[raw b1] [e0|]]]|].
+      + cbn zeta in H. rewrite H in Ho. cbn [snd] in Ho. inversion Ho as [He].
+        exists s1, raw, b1, e0. split; [reflexivity|].
+        destruct (ing_cont s1 e0); (split; [reflexivity|]); [left|right]; split; reflexivity.
+      + rewrite H in Ho. discriminate.
+      + destruct H as (e1 & _ & Hf1 & H). rewrite H in Ho. inversion Ho; subst. congruence.
+    - rewrite H in Ho. discriminate.
+  Qed.
+
+  Lemma runx_terminal st e ops :
+    lastErr (fst st) = Some e -> is_failed e = false ->
+    map snd (snd (runx st ops)) = repeat None (length ops).
+  Proof.
+    intros He Hf. induction ops as [|o ops IH]; [reflexivity|].
+    cbn [Latch.runx]. pose proof (terminal_sticky S ing_step ing_cont st e [o] He Hf) as Hs.
+    cbn [Latch.run map] in Hs. destruct (step st o) as [st1 x]. inversion Hs; subst st1.
+    destruct (runx st ops) as [st2 xs]. cbn [snd map length repeat] in *. rewrite IH. f_equal.
+    destruct o; cbn [Latch.consulted]; [|reflexivity]. unfold consults. rewrite He, Hf. reflexivity.
+  Qed.
+
+  (* After the Read that returned a terminal error no call of any later history reaches the
+     ingester: the list of ingester calls is the one up to that Read, then only None. *)
+  Theorem ingester_not_called_after_terminal st ops1 ops2 e :
+    let st1 := fst (run st ops1) in
+    is_terminal (snd (read st1)) e ->
+    map snd (snd (runx st (ops1 ++ OpRead :: ops2))) =
+      map snd (snd (runx st ops1)) ++ consulted st1 OpRead :: repeat None (length ops2).
+  Proof.
+    intros st1 [Ho Hf]. subst st1. rewrite runx_app.
+    destruct (runx_run ops1 st) as [H1 _]. rewrite <- H1 in *.
+    destruct (runx st ops1) as [st1 o1]. cbn [fst snd] in *. cbn [Latch.runx Latch.step].
+    destruct (read st1) as [st2 o] eqn:Hr. cbn [snd] in Ho. subst o.
+    apply read_post in Hr. pose proof (runx_terminal st2 e ops2 Hr Hf) as Ht.
+    destruct (runx st2 ops2) as [st3 o2]. cbn [snd] in *. rewrite map_app. cbn [map snd].
+    rewrite Ht. reflexivity.
+  Qed.
+
+  (* Error identity down to the ingester: when the ingester, consulted at some point of any
+     history, returns an error e0 that is neither continuable nor an ErrTransformFailed, that Read
+     and every later call return e0 itself (the same value, not merely the same class). *)
+  Theorem error_identity st ops1 ops2 s1 raw b e0 :
+    let st1 := fst (run st ops1) in
+    consulted st1 OpRead = Some (s1, (raw, b, Some e0)) ->
+    ing_cont s1 e0 = false -> is_failed e0 = false ->
+    snd (run st (ops1 ++ OpRead :: ops2)) =
+      snd (run st ops1) ++ OutRead None (Some e0) :: map (sticky_out e0) ops2.
+  Proof.
+    intros st1 Hc Hcont Hf.
+    pose proof (step_by_consulted st1 OpRead) as H. rewrite Hc in H. cbn zeta in H.
+    rewrite Hcont in H. cbn [Latch.step] in H.
+    pose proof (latch_terminal_sticky S ing_step ing_cont st ops1 ops2 e0) as L.
+    cbn zeta in L. fold st1 in L. rewrite H in L. cbn [fst snd] in L.
+    rewrite L; [reflexivity|]. split; [reflexivity|exact Hf].
+  Qed.
+
+  (* RawRecord never hands out an older record.  [raws_fresh last l]: every RawRecord output is
+     determined by the most recent Read before it: that Read's error, or the raw record the
+     ingester returned in that very call -- no hypothesis on the ingester. *)
+  Fixpoint raws_fresh (last : option (out * option (S * ingr)))
+                      (l : list (out * option (S * ingr))) : Prop :=
+    match l with
+    | [] => True
+    | (OutRead b e, c) :: r => raws_fresh (Some (OutRead b e, c)) r
+    | (OutRaw x, _) :: r =>
+        match last with
+        | None => x = RRCallFirst
+        | Some (OutRead _ (Some e), _) => x = RRErr e
+        | Some (OutRead _ None, Some (_, (raw, _, _))) =>
+            x = match raw with Some r0 => RROk r0 | None => RRCallFirst end
+        | Some (OutRead _ None, None) => False
+        | Some (OutRaw _, _) => False
+        end /\ raws_fresh last r
+    end.
+
+  Definition state_fresh (last : option (out * option (S * ingr))) (ts : tstate) : Prop :=
+    match last with
+    | None => ts = t_init
+    | Some (OutRead _ (Some e), _) => lastErr ts = Some e
+    | Some (OutRead _ None, Some (_, (raw, _, _))) => lastErr ts = None /\ lastRaw ts = raw
+    | Some (OutRead _ None, None) => False
+    | Some (OutRaw _, _) => False
+    end.
+
+  Lemma raws_fresh_run ops : forall st last,
+    state_fresh last (fst st) -> raws_fresh last (snd (runx st ops)).
+  Proof.
+    induction ops as [|o ops IH]; intros st last Hm; [exact I|].
+    cbn [Latch.runx]. pose proof (step_by_consulted st o) as H. destruct o.
+    - destruct (consulted st OpRead) as [[s1 [[raw b1] [e0|]]]|].
+      + cbn zeta in H. rewrite H.
+        match goal with |- context [Latch.runx _ _ _ ?st1 ops] =>
+          specialize (IH st1 (Some (OutRead None (Some (if ing_cont s1 e0 then wrap_failed e0 else e0)),
+                                    Some (s1, (raw, b1, Some e0))))) end.
+        destruct (runx _ ops) as [st2 xs]. cbn [snd raws_fresh] in *. apply IH. reflexivity.
+      + rewrite H.
+        specialize (IH (mkT None raw, s1) (Some (OutRead b1 None, Some (s1, (raw, b1, None))))).
+        destruct (runx _ ops) as [st2 xs]. cbn [snd raws_fresh] in *. apply IH. split; reflexivity.
+      + destruct H as (e & He & Hf & H). rewrite H.
+        specialize (IH st (Some (OutRead None (Some e), None))).
+        destruct (runx st ops) as [st2 xs]. cbn [snd raws_fresh] in *. apply IH. exact He.
+    - cbn [Latch.step Latch.consulted]. specialize (IH st last Hm).
+      destruct (runx st ops) as [st2 xs]. cbn [snd raws_fresh] in *. split; [|exact IH].
+      unfold Latch.rawrecord.
+      destruct last as [[[b [e|]|x] [[s1 [[raw b2] e2]]|]]|]; cbn [state_fresh] in Hm;
+        try contradiction;
+        try (rewrite Hm; reflexivity);
+        destruct Hm as [Hm1 Hm2]; rewrite Hm1, Hm2; reflexivity.
+  Qed.
+
+  Theorem rawrecord_never_stale s ops : raws_fresh None (snd (runx (t_init, s) ops)).
+  Proof. apply raws_fresh_run. reflexivity. Qed.
+End LatchHistories.
+
 (* ---- the built-in ingester ---------------------------------------------------------------- *)
 Section BuiltinIngester.
   Variable R : Type.
